@@ -665,7 +665,8 @@ func c07Spec() propSpec {
 		prop: "C07", test: "TestVerifC07ValidatorSets",
 		rule: "histories of 3-30 ops on chains whose application changes validator keys and powers at every height (from initial+2 on): honest round macros, proposed headers that are copies with altered ValidatorSet / NextValidatorSet lists (hashes, block hash and signature untouched) delivered before or after the original, Byzantine-but-consistent alternative next sets, next-height headers, replays (incl. foreign list / forged powers), restarts; after every step the voting and committing validator sets must equal the prescribed set (keys, powers, hashes) and every committed header's lists must hash (independent BLAKE2b re-implementation) to its hashes; non-trivial = validator set differs between two consecutive committed heights and a forged-list message was delivered; distinct = fingerprint of (config, op list)",
 		profile: genProfile{
-			w:              map[string]int{"ph": 8, "vote": 3, "round": 10, "replay": 3, "restart": 2, "sment": 1},
+			w:              map[string]int{"ph": 8, "vote": 3, "round": 10, "replay": 3, "restart": 2, "sment": 1, "fetch": 1},
+			hostileFetch:   true,
 			phVariants:     []int{phFresh, phFresh, phForgedNext, phForgedNext, phForgedCur, phForgedNextPowers, phForgedNextPubKeysOnly, phForgedNextPubKeysOnly, phForgedCurPubKeysOnly, phAltNext},
 			pcpVariants:    []int{pcpExact},
 			voteCorr:       []int{vcNone},
